@@ -651,12 +651,24 @@ def reset_counters(b: Built):
 
 
 def build_model(spec, copy=False):
-    b = construct(spec)
-    gb = b.gb
-    for i, it in enumerate(spec):
-        if it["k"] != "group":
-            gb.add(b.obj[i])
-    model = gb.build_model(copy=copy)
+    """Builds the generated program. Generated programs are valid, so an exception from liesel
+    here is the system under test failing a legitimate call (SutError -> violation)."""
+    from simkit.core import SutError
+
+    where = "construct"
+    try:
+        b = construct(spec)
+        gb = b.gb
+        where = "GraphBuilder.add"
+        for i, it in enumerate(spec):
+            if it["k"] != "group":
+                gb.add(b.obj[i])
+        where = "build_model"
+        model = gb.build_model(copy=copy)
+    except SutError:
+        raise
+    except Exception as e:
+        raise SutError(f"{where}|{type(e).__name__}|?|{e}") from e
     return b, model
 
 
